@@ -51,3 +51,24 @@ func VerifC09StreamSIDX(instances []sidx.SIDX, req sidx.QueryRequest, maxTraceSi
 	}
 	return strings.Join(bs, "/")
 }
+
+// VerifC09Disjoint runs the trace engine's copy of getDisjointParts on parts that only carry [min,max] time ranges.
+func VerifC09Disjoint(ranges [][2]int64, asc bool) [][]uint64 {
+	ps := make([]*part, 0, len(ranges))
+	for i, r := range ranges {
+		p := &part{}
+		p.partMetadata.ID = uint64(i + 1)
+		p.partMetadata.MinTimestamp = r[0]
+		p.partMetadata.MaxTimestamp = r[1]
+		ps = append(ps, p)
+	}
+	var out [][]uint64
+	for _, g := range getDisjointParts(ps, asc) {
+		var ids []uint64
+		for _, p := range g {
+			ids = append(ids, p.partMetadata.ID)
+		}
+		out = append(out, ids)
+	}
+	return out
+}
